@@ -120,10 +120,23 @@ func c14Run(d *decl.Decl, text string) (b *decl.Built, err error, pan interface{
 		}
 	}()
 	ip := flags.NewIniParser(b.Parser)
+	if c14Reused {
+		// the same IniParser has read another file before, while the parser did not yet carry IgnoreUnknown: that file named a
+		// section that does not exist and was rejected; the program then sets the parser's options as they are for this read
+		want := b.Parser.Options
+		b.Parser.Options &^= flags.IgnoreUnknown
+		ferr := ip.Parse(strings.NewReader("[No Such Section]\nzz = 1\n"))
+		b.Parser.Options = want
+		if fe, ok := ferr.(*flags.Error); !ok || fe.Type != flags.ErrUnknownGroup {
+			return b, fmt.Errorf("harness: the earlier file with an unknown section was not rejected with ErrUnknownGroup: %v", ferr), nil, ""
+		}
+	}
 	ip.ParseAsDefaults = c14AsDefaults
 	err = ip.Parse(bytes.NewReader([]byte(text)))
 	return
 }
+
+var c14Reused bool // per leaf: the IniParser has read (and rejected) another file before
 
 var c14AsDefaults bool // per leaf: the file is read in as-defaults mode (faults are faults all the same)
 
@@ -226,6 +239,11 @@ func init() {
 		}
 		c14AsDefaults = n >= 1 && n <= 2 && c.Bool()
 		defer func() { c14AsDefaults = false }()
+		c14Reused = n <= 2 && c.Bool()
+		defer func() { c14Reused = false }()
+		if c14Reused {
+			c.Hit("IniParser-re-used")
+		}
 		if c14AsDefaults {
 			c.Hit("as-defaults")
 		}
@@ -254,7 +272,7 @@ func init() {
 			for _, k := range idx {
 				show = append(show, c14Lines[k])
 			}
-			return map[string]interface{}{"part": "line-files", "ignore_unknown": ignore, "crlf": crlf, "final_newline": !noFinalNL, "as_defaults": c14AsDefaults, "lines": show}
+			return map[string]interface{}{"part": "line-files", "ignore_unknown": ignore, "crlf": crlf, "final_newline": !noFinalNL, "as_defaults": c14AsDefaults, "IniParser_has_rejected_another_file_before": c14Reused, "lines": show}
 		})
 		b, err, pan, site := c14Run(d, text)
 		if pan != nil {
@@ -282,11 +300,11 @@ func init() {
 		Body:       body,
 		Rule: "(i) every byte string of length <= 6 (thorough: <= 7 without IgnoreUnknown) over {[ ] = \" : ; # space LF CR a \\ 0xFF} read into a declaration whose option, ini-name and group are reachable over that alphabet (map option a, group a, ini-name aa); " +
 			"(ii) every file of <= 3 (quick) / <= 4 (thorough) lines over 39 lines, and of 4 / 5 lines over the 30 of them that are short: 8 valid entries (scalar, int, slice, map, bool, quoted, group and command options), a value given to a func() option (may be rejected with its line, must not panic), 3 headers, 8 noise lines (empty, blanks, ; and # comments, 4095/4096/10000-byte comments, a 4097-byte value) and 2 entries whose line is exactly one / two read buffers long (4096 / 8192 bytes), " +
-			"10 faults (a bool given a word that is no boolean, no '=', bad quoting, open header, empty header, unknown option, unconvertible int, empty map value, unknown section, padded entry) x LF/CRLF x final newline present/absent (files of one or two lines also read in as-defaults mode); both with and without IgnoreUnknown; " +
+			"10 faults (a bool given a word that is no boolean, no '=', bad quoting, open header, empty header, unknown option, unconvertible int, empty map value, unknown section, padded entry) x LF/CRLF x final newline present/absent (files of one or two lines also read in as-defaults mode, and also with an IniParser that has read and rejected another file - one naming an unknown section - before, the parser's IgnoreUnknown being set only after that); both with and without IgnoreUnknown; " +
 			"oracle: returns normally; reference reader: no fault => no error and the values the entries denote (noise and line ends change nothing); faults => the error is one of them, IniError carrying exactly its 1-based line or ErrUnknownGroup; the first syntax fault always wins; " +
 			"distinct = distinct (error class, fault list, assigned options)",
 		Assumptions:  []string{"options assigned from more than one section are not compared (section order is C15's subject)", "values are not compared once an error is returned"},
-		RequiredHits: []string{"clean", "single-fault", "crlf", "long-line", "fault:unknown option", "fault:unconvertible value", "fault:unknown section", "fault:bad quoting", "fault:no key=value", "fault:section header"},
+		RequiredHits: []string{"IniParser-re-used", "clean", "single-fault", "crlf", "long-line", "fault:unknown option", "fault:unconvertible value", "fault:unknown section", "fault:bad quoting", "fault:no key=value", "fault:section header"},
 		Bound:        [2]string{"byte strings <= 6; files <= 3 lines (4 without the long lines)", "byte strings <= 7; files <= 4 lines (5 without the long lines)"},
 		BudgetS:      [2]int{170, 1500},
 	})
